@@ -1,0 +1,84 @@
+//! Seam for deterministic simulation of the language server.
+//!
+//! Compiled only with `--cfg parol_verif`; the shipped server does not contain this module.
+//! It lets an external harness (the simulation driver included into `main.rs` under the same
+//! cfg) decide which of the server's threads runs at a small number of intercepted points.
+//! Without an installed scheduler every function here degrades to the `std` behaviour.
+
+use std::sync::OnceLock;
+
+/// An intercepted point of the server code.
+#[derive(Clone, Copy, Debug, PartialEq, Eq)]
+pub(crate) enum Point {
+    /// The main loop has received a message and is about to handle it.
+    MessageBoundary,
+    /// The running thread is about to send a `publishDiagnostics` notification.
+    BeforePublish,
+    /// The running thread is about to acquire the lock with the given id.
+    LockAcquire(u32),
+    /// The running thread has released the lock with the given id.
+    LockReleased(u32),
+}
+
+/// The scheduler interface the simulation driver implements.
+pub(crate) trait Sched: Sync + Send {
+    /// Called by the running thread at an intercepted point; may block until rescheduled.
+    fn point(&self, p: Point);
+    /// Called by the parent before the OS thread of a child is created; returns the child's id.
+    fn register_child(&self) -> usize;
+    /// Parent-side scheduling point right after the child's OS thread was created.
+    fn spawned(&self, child: usize);
+    /// First call on the child thread: blocks until the child is scheduled for the first time.
+    /// Returns `false` if the simulator injects a crash of this thread.
+    fn child_start(&self, child: usize) -> bool;
+    /// Last call on the child thread.
+    fn child_exit(&self, child: usize, panicked: bool);
+}
+
+static SCHED: OnceLock<Box<dyn Sched>> = OnceLock::new();
+
+/// Installs the scheduler; returns false if one was installed before.
+pub(crate) fn install(s: Box<dyn Sched>) -> bool {
+    SCHED.set(s).is_ok()
+}
+
+/// Reports an intercepted point to the scheduler (no-op without a scheduler).
+pub(crate) fn point(p: Point) {
+    if let Some(s) = SCHED.get() {
+        s.point(p);
+    }
+}
+
+/// Drop-in for `std::thread` as far as the server uses it.
+pub(crate) mod thread {
+    use super::SCHED;
+    use std::panic::{AssertUnwindSafe, catch_unwind, resume_unwind};
+    pub(crate) use std::thread::JoinHandle;
+
+    pub(crate) fn spawn<F, T>(f: F) -> JoinHandle<T>
+    where
+        F: FnOnce() -> T + Send + 'static,
+        T: Send + 'static,
+    {
+        match SCHED.get() {
+            None => std::thread::spawn(f),
+            Some(s) => {
+                let id = s.register_child();
+                let handle = std::thread::spawn(move || {
+                    if !s.child_start(id) {
+                        s.child_exit(id, true);
+                        panic!("verif: injected crash of background thread {id}");
+                    }
+                    let r = catch_unwind(AssertUnwindSafe(f));
+                    s.child_exit(id, r.is_err());
+                    match r {
+                        Ok(v) => v,
+                        Err(p) => resume_unwind(p),
+                    }
+                });
+                s.spawned(id);
+                handle
+            }
+        }
+    }
+}
